@@ -50,15 +50,16 @@ def consts(ctx):
 
 
 def encryptors():
-    return [SoftwareCustKeyEncryptor(CKEY), EccDecryptor(0, FX.priv_key(SCAL[0])), EccDecryptor(2, FX.priv_key(SCAL[2]))]
+    # selector 0 (falsy) is deliberately NOT the first ECC entry: a block must be matched by its selector, never by list position
+    return [EccDecryptor(2, FX.priv_key(SCAL[2])), SoftwareCustKeyEncryptor(CKEY), EccDecryptor(0, FX.priv_key(SCAL[0]))]
 
 
 def decryptor(kind):
     if kind == "eccpub":
         from bec2format.bec2file import EccEncryptor
-        return [EccEncryptor(0, FX.priv_key(SCAL[0]).public_key), EccEncryptor(2, FX.priv_key(SCAL[2]).public_key)]
+        return [EccEncryptor(2, FX.priv_key(SCAL[2]).public_key), EccEncryptor(0, FX.priv_key(SCAL[0]).public_key)]
     return {"cust": lambda: [SoftwareCustKeyEncryptor(CKEY)],
-            "ecc": lambda: [EccDecryptor(0, FX.priv_key(SCAL[0])), EccDecryptor(2, FX.priv_key(SCAL[2]))],
+            "ecc": lambda: [EccDecryptor(2, FX.priv_key(SCAL[2])), EccDecryptor(0, FX.priv_key(SCAL[0]))],
             "upd": lambda: [ConfigSecurityCodeEncryptor(CODE)]}[kind]()
 
 
